@@ -183,8 +183,8 @@ Proof.
       * intros V. rewrite vzero_fv, V. apply orb_true_r.
   - (* PSlow *)
     destruct Ht as (Eg & Hc).
-    destruct (ev_kind e DV_FUTEX_WAIT && (eoff e =? OFF_GEN) && (ea e =? gen)) eqn:C.
-    + injection Hts as <-. apply andb_true_iff in C as [C C2]. apply andb_true_iff in C as [C C1]. rewrite C in Hg.
+    destruct (ev_kind e DV_FUTEX_WAIT && (eoff e =? OFF_GEN) && (ea e =? gen) && (eb e =? (if tmo =? FOREVER then 0 else 1))) eqn:C.
+    + injection Hts as <-. apply andb_true_iff in C as [C _]. apply andb_true_iff in C as [C C2]. apply andb_true_iff in C as [C C1]. rewrite C in Hg.
       apply Some_inj in Hg; subst s1.
       apply (Inv1_intro s _ t HI); sset; [exact G|rewrite upd_same; split; assumption|frame1|lia].
     + crack Hts. injection Hts as <-.
@@ -198,7 +198,7 @@ Proof.
       apply Hc. rewrite C1, (gen_fields _ W), Gg, Eg in E. destruct Hc as (L & _).
       destruct (Z.eq_dec (gsnap s t) (gfull s)) as [Q|Q]; [rewrite Q in E; contradiction|lia].
   - (* PSleep *)
-    crack Hts. injection Hts as <-. apply Some_inj in Hg; subst s1.
+    crack Hts. injection Hts as <-. destruct ((tmo =? FOREVER) && (eb e =? ETIMEDOUT)); [discriminate Hg|]. apply Some_inj in Hg; subst s1.
     apply (Inv1_intro s _ t HI); sset; [exact G|rewrite upd_same; exact Ht|frame1|lia].
   - (* PSlowLoad *)
     destruct Ht as (Eg & Hc).
@@ -551,8 +551,8 @@ Proof.
   - (* PSlow *)
     assert (X : exists s0 p0, s1 = s0 /\ p' = p0 /\ cls p0 = 0 /\ (forall o n, p0 <> PNfCas o n) /\
                 (s0 = s \/ exists f, s0 = set_slp s f)).
-    { destruct (ev_kind e DV_FUTEX_WAIT && (eoff e =? OFF_GEN) && (ea e =? gen)) eqn:C.
-      - injection Hts as <-. apply andb_true_iff in C as [C _]. apply andb_true_iff in C as [C _]. rewrite C in Hg.
+    { destruct (ev_kind e DV_FUTEX_WAIT && (eoff e =? OFF_GEN) && (ea e =? gen) && (eb e =? (if tmo =? FOREVER then 0 else 1))) eqn:C.
+      - injection Hts as <-. apply andb_true_iff in C as [C _]. apply andb_true_iff in C as [C _]. apply andb_true_iff in C as [C _]. rewrite C in Hg.
         apply Some_inj in Hg; subst s1. eexists _, _. repeat split; [discriminate|right; eexists; reflexivity].
       - crack Hts. injection Hts as <-.
         assert (Q : s1 = s \/ exists f, s1 = set_slp s f).
@@ -562,7 +562,7 @@ Proof.
     destruct X as (s0 & p0 & -> & -> & Cl & Nc & [->|(f & ->)]); apply (Inv2_same s); try exact HI; try reflexivity;
       try (rewrite Hpc; exact Cl); intros o n X; exfalso; exact (Nc _ _ X).
   - (* PSleep *)
-    crack Hts. injection Hts as <-. apply Some_inj in Hg; subst s1.
+    crack Hts. injection Hts as <-. destruct ((tmo =? FOREVER) && (eb e =? ETIMEDOUT)); [discriminate Hg|]. apply Some_inj in Hg; subst s1.
     apply (Inv2_same s); try exact HI; try reflexivity; [rewrite Hpc; reflexivity|discriminate].
   - (* PSlowLoad *)
     crack Hts. injection Hts as <-. crack Hg. apply Some_inj in Hg; subst s1.
@@ -711,7 +711,7 @@ Proof.
   - crack H. destruct k; discriminate H.
   - crack H. apply Some_inj in H. exact (WT _ _ H Hv).
   - crack H. apply Some_inj in H. destruct (eok e =? 1); [discriminate|]. exact (WT _ _ H Hv).
-  - destruct (ev_kind e DV_FUTEX_WAIT && (eoff e =? OFF_GEN) && (ea e =? gen)) eqn:C; [discriminate|].
+  - destruct (ev_kind e DV_FUTEX_WAIT && (eoff e =? OFF_GEN) && (ea e =? gen) && (eb e =? (if tmo =? FOREVER then 0 else 1))) eqn:C; [discriminate|].
     crack H. apply andb_true_iff in C0 as [C0 C1]. apply andb_true_iff in C0 as [C0 _]. apply ev_is_kind in C0.
     split; [apply negb_true_iff in C1; apply Z.eqb_neq; exact C1|]. unfold ev_kind. rewrite C0. reflexivity.
   - crack H. discriminate H.
@@ -1140,8 +1140,8 @@ Proof.
       apply T3p_wt_entry; [rewrite C1; exact W|intros _; sset; symmetry; exact C1].
   - (* PSlow *)
     destruct Ht1 as (Eg & (Lg & _)).
-    destruct (ev_kind e DV_FUTEX_WAIT && (eoff e =? OFF_GEN) && (ea e =? gen)) eqn:C.
-    + injection Hts as <-. apply andb_true_iff in C as [C C2]. apply andb_true_iff in C as [C C1]. rewrite C in Hg.
+    destruct (ev_kind e DV_FUTEX_WAIT && (eoff e =? OFF_GEN) && (ea e =? gen) && (eb e =? (if tmo =? FOREVER then 0 else 1))) eqn:C.
+    + injection Hts as <-. apply andb_true_iff in C as [C _]. apply andb_true_iff in C as [C C2]. apply andb_true_iff in C as [C C1]. rewrite C in Hg.
       apply Z.eqb_eq in C2. apply Some_inj in Hg; subst s1.
       apply (Inv3_same s); try assumption; try reflexivity; try fr3; try (nw Hpc).
       unfold T3; sset. rewrite !upd_same. split; [intros _; eauto|]. split; [exact TB|].
@@ -1159,7 +1159,7 @@ Proof.
       apply (Inv3_same s); try assumption; try reflexivity; try fr3; try (nw Hpc).
       apply T3_mover; sset; [awake HT Hpc|rewrite upd_same; destruct (_ =? _); exact I].
   - (* PSleep *)
-    crack Hts. injection Hts as <-. apply Some_inj in Hg; subst s1.
+    crack Hts. injection Hts as <-. destruct ((tmo =? FOREVER) && (eb e =? ETIMEDOUT)); [discriminate Hg|]. apply Some_inj in Hg; subst s1.
     apply (Inv3_same s); try assumption; try reflexivity; try fr3; try (nw Hpc).
     apply T3_mover; sset; [rewrite upd_same; discriminate|rewrite upd_same; exact TB].
   - (* PSlowLoad *)
